@@ -21,7 +21,7 @@ from fractions import Fraction
 import z3
 
 from .. import front
-from ..common import Unsupported, ob, DISCHARGED, REFUTED, UNDECIDED
+from ..common import Unsupported, ob, DISCHARGED, REFUTED, UNDECIDED, CRASH
 
 
 # ----------------------------------------------------------------------------- values
@@ -237,7 +237,7 @@ class Run:
         n = 0
         for k, f in enumerate(facts):
             f = to_z3(f)
-            st, be, det, mod, w = discharge(dict(hyps=self.hyps(), goal=f), timeout_ms)
+            st, be, det, mod, w = discharge(dict(hyps=self.hyps(), goal=f, no_recheck=True), timeout_ms)
             if st == DISCHARGED:
                 self.pc.append(f)
                 n += 1
@@ -1479,6 +1479,13 @@ def discharge(vc, timeout_ms=20000):
         if r2 == z3.sat:
             s = s2
     if r == z3.unsat:
+        import os
+        if os.environ.get("VERIF_TIER") == "thorough" and not vc.get("no_recheck"):
+            # thorough tier: every z3 `unsat` is re-discharged on the second solver; `sat` there is a solver disagreement (checker crash)
+            st2, det2 = _cvc5(s, min(timeout_ms, 20000))
+            if st2 == "sat":
+                return CRASH, "z3-vs-cvc5", "solver disagreement: z3 unsat, cvc5 sat", None, time.time() - t0
+            return DISCHARGED, ("z3+cvc5" if st2 == "unsat" else "z3(cvc5:unknown)"), "", None, time.time() - t0
         return DISCHARGED, "z3", "", None, time.time() - t0
     if r == z3.sat:
         m = s.model()
@@ -1532,6 +1539,9 @@ def run_scenario(name_prefix, scenario, functions=(), kind="proof", timeout_ms=2
             backend = be if st != DISCHARGED or backend == "z3" else backend
             if st == REFUTED:
                 worst, detail, model, wclass = REFUTED, det or vc.get("note", ""), mod, vc.get("witness_class", "")
+                break
+            if st == CRASH:
+                worst, detail = CRASH, det
                 break
             if st == UNDECIDED and worst == DISCHARGED:
                 worst, detail = UNDECIDED, det
